@@ -116,6 +116,26 @@ Theorem C02_stream_response_body :
 Proof. exact stream_response_body. Qed.
 Print Assumptions C02_stream_response_body.
 
+(* ... and field by field: status, cookies, raw headers (in the order ResponseStream writes them: Set-Cookie lines,
+   application headers, Transfer-Encoding; first occurrence wins) and the concatenated chunks. *)
+Theorem C02_stream_response_fields :
+  forall typed_other set_cookie code hs cks chunks,
+    (code < 2147483648)%N -> Forall plain_header hs -> Forall (fun ck => cookie_ok set_cookie (fst ck) (snd ck)) cks ->
+    typed_ok typed_other "Transfer-Encoding" chunked ->
+    Forall (fun c => c <> [] /\ (Z.of_nat (length c) <= LONG_MAX)%Z) chunks ->
+    exists st,
+      whole typed_other set_cookie KResponse (render_stream code hs (map fst cks) chunks) = (PDone, st)
+      /\ p_cur st = length (render_stream code hs (map fst cks) chunks)
+      /\ m_code (p_msg st) = Z.of_N code
+      /\ m_cookies (p_msg st) = capply _ same_pair [] (map (fun ck : bytes * (bytes * bytes) => CIns (snd ck)) cks)
+      /\ m_raw (p_msg st) = capply _ same_ci []
+           (map (fun h : bytes * bytes => CIns h)
+                (map (fun ck : bytes * (bytes * bytes) => (list_of_string "Set-Cookie", fst ck)) cks ++ hs
+                 ++ [(list_of_string "Transfer-Encoding", chunked)]))
+      /\ m_body (p_msg st) = concat chunks.
+Proof. exact stream_response_fields. Qed.
+Print Assumptions C02_stream_response_fields.
+
 (* non-vacuity: a concrete request meets the hypotheses; evaluated with the executable instance *)
 Require Import ParserInst.
 Local Open Scope string_scope.
@@ -126,6 +146,29 @@ Example C02_ex :
   match whole typed_other_inst set_cookie_inst KRequest req with
   | (PDone, st) => (m_method (p_msg st), m_resource (p_msg st), m_query (p_msg st), m_cookies (p_msg st), m_body (p_msg st), Nat.eqb (p_cur st) (length req))
                    = (2%N, s "/a/b", [(s "k", s "v"); (s "x", [])], [(s "sid", s "1"); (s "t", s "2")], s "hello", true)
+  | _ => False
+  end.
+Proof. vm_compute. reflexivity. Qed.
+(* non-vacuity, server -> client: a streamed response with a cookie, a header and chunks of 1, 17 and 300 bytes
+   (chunk-size lines of one, two and three hex digits), and the same components through the fixed-length writer *)
+Example C02_ex_stream :
+  let s := list_of_string in
+  let chunks := [s "a"; repeat "b"%char 17; repeat "c"%char 300] in
+  let resp := render_stream 404 [(s "X-Trace", s "abc")] [s "sid=1"] chunks in
+  match whole typed_other_inst set_cookie_inst KResponse resp with
+  | (PDone, st) => (m_code (p_msg st), m_cookies (p_msg st), m_raw (p_msg st), m_body (p_msg st), Nat.eqb (p_cur st) (length resp))
+                   = (404%Z, [(s "sid", s "1")],
+                      [(s "Set-Cookie", s "sid=1"); (s "X-Trace", s "abc"); (s "Transfer-Encoding", s "chunked")], concat chunks, true)
+  | _ => False
+  end.
+Proof. vm_compute. reflexivity. Qed.
+Example C02_ex_fixed :
+  let s := list_of_string in
+  let resp := render_response 201 [(s "X-Trace", s "abc")] [s "sid=1"] (s "hello") in
+  match whole typed_other_inst set_cookie_inst KResponse resp with
+  | (PDone, st) => (m_code (p_msg st), m_cookies (p_msg st), m_raw (p_msg st), m_body (p_msg st), Nat.eqb (p_cur st) (length resp))
+                   = (201%Z, [(s "sid", s "1")],
+                      [(s "X-Trace", s "abc"); (s "Set-Cookie", s "sid=1"); (s "Content-Length", s "5")], s "hello", true)
   | _ => False
   end.
 Proof. vm_compute. reflexivity. Qed.
